@@ -123,6 +123,14 @@ def run(ctx):
               lambda P_: must_pass(P_, 'Group::join_with', r'InterimTranscriptHash::create$'), floor=1)
     from .C02 import receiver_exclusion
     ctx.check('SIBLING', 'sender and receiver locate a ciphertext in the resolution by the same exclusion rule', receiver_exclusion, floor=1)
+    # every member must end up able to follow the NEXT commit too: committer, receiver and joiner derive a key for every unfiltered
+    # node of the path (a joiner that stops early agrees on every public value and then cannot open a later update path)
+    from ..core.rules import exhaustive_loop
+    from .C09 import generator_condition
+    for fq, who in (('TreeKem::encap', 'committer'), ('TreeKem::decap', 'receiver'), ('TreeKemPrivate::update_secrets', 'joiner')):
+        ctx.check('EXHAUSTIVE-LOOP', '%s derives keys along its whole direct path' % who, lambda P_, fq=fq: exhaustive_loop(P_, fq), floor=1)
+    ctx.check('SIBLING', 'joiner advances the path-secret generator exactly for the unfiltered nodes, as the committer does',
+              generator_condition('TreeKemPrivate::update_secrets'), floor=1)
     # ---- installation
     M = {'epoch_secrets': r'from_key_schedule\(.*\)\.epoch_secrets$', 'state.context': r'^provisional_state\.group_context$',
          'state.interim_transcript_hash': r'^interim_transcript_hash$', 'key_schedule': r'from_key_schedule\(.*\)\.key_schedule$',
